@@ -8,6 +8,7 @@ from __future__ import annotations
 import contextlib
 import gzip as _gzipmod
 import io
+import signal
 import types
 import zlib as _real_zlib
 from typing import Any, Iterator
@@ -172,7 +173,7 @@ class Trace:
     def __init__(self) -> None:
         self.reads: list[tuple[int, int]] = []  # zstd reader.read(n) -> len
         self.oneshot = 0
-        self.decs: list[tuple[int, int, bool]] = []  # zlib decompress(inbuf, n) -> (n, len, tail non-empty)
+        self.decs: list[tuple[int, int, bool, bool]] = []  # zlib decompress(inbuf, n) -> (n, len, tail non-empty, eof)
         self.uncapped_dec = 0
         self.flush: list[int] = []
         self.fed_in_order = True
@@ -259,7 +260,9 @@ class _RecDecompressObj:
             t._pos += len(inbuf) - len(self._o.unconsumed_tail)
             if len(args) >= 2 or "max_length" in kw:
                 n = args[1] if len(args) >= 2 else kw["max_length"]
-                t.decs.append((int(n), len(out), bool(self._o.unconsumed_tail)))
+                t.decs.append((int(n), len(out), bool(self._o.unconsumed_tail), bool(self._o.eof)))
+                if len(t.decs) > 200000:
+                    raise Hang()
             else:
                 t.uncapped_dec += 1
         return out
@@ -288,8 +291,19 @@ def recording() -> Iterator[None]:
         _codec.zlib, zstandard.ZstdDecompressor, zstandard.get_frame_parameters = saved  # type: ignore[misc,assignment]
 
 
+class Hang(BaseException):
+    pass
+
+
+def _on_alarm(*_a: Any) -> None:
+    raise Hang()
+
+
+WATCHDOG_S = 20.0
+
+
 def run_decompress(codec: str, frame: bytes, cap: int | None, *, trace: bool, sentinel_minus1: bool = False) -> tuple[str, bytes | None, str, Trace | None]:
-    """-> (class, bytes or None, exception text, trace).  class in ok | limit | error."""
+    """-> (class, bytes or None, exception text, trace).  class in ok | limit | error | hang."""
     global TRACE
     from vgi_rpc import _codec
 
@@ -300,13 +314,19 @@ def run_decompress(codec: str, frame: bytes, cap: int | None, *, trace: bool, se
         t.frame = frame
         t.sentinel_minus1 = sentinel_minus1
     TRACE = t
+    old = signal.signal(signal.SIGALRM, _on_alarm)
+    signal.setitimer(signal.ITIMER_REAL, WATCHDOG_S)
     try:
         out = _codec.decompress(enc, frame, max_output_size=cap)
         return "ok", out, "", t
+    except Hang:
+        return "hang", None, f"no return within {WATCHDOG_S} s", t
     except _codec.DecompressionLimitExceeded as e:
         ok_class = isinstance(e, _codec.DecompressionError)
         return ("limit" if ok_class else "limit-not-a-DecompressionError"), None, str(e), t
     except Exception as e:  # noqa: BLE001 - every other escape is one class for the model
         return "error", None, f"{type(e).__name__}: {e}", t
     finally:
+        signal.setitimer(signal.ITIMER_REAL, 0)
+        signal.signal(signal.SIGALRM, old)
         TRACE = None
